@@ -204,7 +204,9 @@ TOKENS = ["(", ")", ",", " ", "/", "(", ")", ",", "Red", "Blue", "Event", "Senso
           # text that is not in Unicode normal form (combining mark, Hangul jamo, compatibility singleton)
           "Label/Cafe\u0301", "e\u0301", "\u1100\u1161", "\u212b", "\ufb01",
           # spellings whose casefold() has another length than the text (sharp s, ligatures) in front of a slash
-          "Pre\u00df/Foo", "Loudne\u00df/5", "De\ufb01nition/MyDef", "O\ufb00set", "Label/Stra\u00dfe", "Pre\u00df"]
+          "Pre\u00df/Foo", "Loudne\u00df/5", "De\ufb01nition/MyDef", "O\ufb00set", "Label/Stra\u00dfe", "Pre\u00df",
+          # a '#' that is a path segment of its own
+          "Label/#/#/x", "Age/#/#", "/#", "#/"]
 
 text_strategy = st.builds(
     lambda toks, sch: {"text": "".join(toks), "schema": sch},
